@@ -46,6 +46,7 @@ def validate(sessions, workdir, nshards=None, timeout=3600, module="Trace_Solver
     for i, s in enumerate(sessions):
         rec = {k: s[k] for k in ("tid", "fam", "exact", "descs", "events")}
         rec["rel"] = s.get("rel", {"kind": "none"})
+        rec["eps"] = s.get("eps", 1000)          # the threshold in nano units (10^-6)
         obs.check_ints(rec)
         shards[i % nshards].append(rec)
     # big sessions (thousands of states) get shards of their own
